@@ -1,4 +1,158 @@
 import PeptVerif.Model.Proto
-/-! driver for C14 (placeholder: replies bad-op to everything until the model is written) -/
-def step (_line : String) : String := "bad-op"
-def main : IO Unit := Proto.runDriver step
+import PeptVerif.Model.Isotope
+/-! driver for C14: isotope.py model through the line protocol.
+
+ops (TAB separated):
+  iso    formula maxIso minThr res neutron convThr A sum outMass neutronMass precision floor fmt
+         -> OK <max un-normalised> <Σ normalised kept> <round-diag> <topk-diag> <dist>     | ERR:<name>
+  elem   key count neutron floor fmt            -> <dist>   (insertion order)
+  conv   d1 d2 maxIso thr res fmt               -> <dist>   (insertion order)
+  merge  d1|d2|...  precision fmt               -> <dist>
+  round  q nd                                   -> q'
+formula  C=i:12,H=f:13/2,e=i:-1      dist  k:a;k:a   rationals p/q or p
+fmt = exact | approx (numerator/denominator shifted to ~128 bits)
+-/
+open Proto Isotope
+
+def parseRat? (s : String) : Option Rat :=
+  match s.splitOn "/" with
+  | [p] => p.toInt?.map (fun i => (i : Rat))
+  | [p, q] => match p.toInt?, q.toNat? with
+    | some i, some d => if d = 0 then none else some ((i : Rat) / (d : Rat))
+    | _, _ => none
+  | _ => none
+
+def parseOptRat? (s : String) : Option (Option Rat) :=
+  if s == "None" then some none else (parseRat? s).map some
+
+def parseOptNat? (s : String) : Option (Option Nat) :=
+  if s == "None" then some none else s.toNat?.map some
+
+def showRatExact (q : Rat) : String :=
+  if q.den = 1 then toString q.num else toString q.num ++ "/" ++ toString q.den
+
+def showRatApprox (q : Rat) : String :=
+  let n := q.num.natAbs
+  let d := q.den
+  let b := min (Nat.log2 n) (Nat.log2 d)
+  if b ≤ 160 then showRatExact q else
+    let s := b - 128
+    let n' := n >>> s
+    let d' := d >>> s
+    (if q.num < 0 then "-" else "") ++ toString n' ++ "/" ++ toString d'
+
+def showRat (exact : Bool) (q : Rat) : String := if exact then showRatExact q else showRatApprox q
+
+def showDist (exact : Bool) (d : Dist Rat) : String :=
+  ";".intercalate (d.map (fun p => showRat exact p.1 ++ ":" ++ showRat exact p.2))
+
+def parseDist? (s : String) : Option (Dist Rat) :=
+  if s.isEmpty then some [] else
+  (s.splitOn ";").mapM (fun e => match e.splitOn ":" with
+    | [k, a] => match parseRat? k, parseRat? a with
+      | some k, some a => some (k, a)
+      | _, _ => none
+    | _ => none)
+
+def parseCount? (s : String) : Option Count :=
+  match s.splitOn ":" with
+  | ["i", n] => n.toInt?.map Count.int
+  | ["f", q] => (parseRat? q).map Count.flt
+  | _ => none
+
+def parseFormula? (s : String) : Option Formula :=
+  if s.isEmpty then some [] else
+  (s.splitOn ",").mapM (fun e => match e.splitOn "=" with
+    | [k, c] => (parseCount? c).map (fun c => (k.toList.map Char.toNat, c))
+    | _ => none)
+
+def showErr : Err → String
+  | .valueError => "ERR:ValueError"
+  | .unknownElement => "ERR:InvalidChemFormulaError"
+  | .zeroDiv => "ERR:ZeroDivisionError"
+
+/-- distance of `x·10^nd` from the nearest rounding boundary (…+1/2), in units of the last kept place -/
+def boundaryDist (nd : Int) (x : Rat) : Rat :=
+  let y := if 0 ≤ nd then x * (10 : Rat) ^ nd.toNat else x / (10 : Rat) ^ (-nd).toNat
+  let r := y - (y.floor : Rat)
+  if r < 1 / 2 then 1 / 2 - r else r - 1 / 2
+
+def minRat (a b : Rat) : Rat := if b < a then b else a
+
+/-- smallest relative gap between the last kept and the first dropped abundance of a top-k cut -/
+def topkGap (k : Nat) (d : Dist Rat) : Rat :=
+  let s := sortDesc d
+  match s.drop (k - 1) with
+  | a :: b :: _ => if a.2 = 0 then 1 else (a.2 - b.2) / a.2
+  | _ => 1
+
+/-- diagnostics over the element loop: (min rounding-boundary distance, min top-k gap) -/
+def diagAll (o : Opts) : List (Key × Int) → Dist Rat → Rat × Rat → Rat × Rat
+  | [], _, acc => acc
+  | (k, c) :: t, d, acc =>
+    match lookupEntry k with
+    | none => acc
+    | some e =>
+      let isos := if o.useNeutronCount then offsetIsotopes e else massIsotopes e
+      let el := elemental o.floor isos c.toNat
+      let rd := match o.resolution with
+        | none => acc.1
+        | some nd => d.foldl (fun m p1 => el.foldl (fun m p2 => minRat m (boundaryDist nd (p1.1 + p2.1))) m) acc.1
+      let thr := some (o.convMinAbundanceThreshold.getD 0)
+      let full := convolve (roundOpt o.resolution) thr none d el
+      let tg := match o.maxIsotopes with
+        | none => acc.2
+        | some n => minRat acc.2 (topkGap n full)
+      diagAll o t (convolve (roundOpt o.resolution) thr o.maxIsotopes d el) (rd, tg)
+
+def cleanFormula (f : Formula) : List (Key × Int) :=
+  let f3 := ((popCount (popCount (popCount f eKey).2 pKey).2 nKey).2)
+  (f3.filter (fun p => p.2.val ≠ 0)).map (fun p => (p.1, p.2.round))
+
+def isExact (s : String) : Bool := s == "exact"
+
+def step (line : String) : String :=
+  match splitTab line with
+  | ["iso", f, mi, mt, res, neu, ct, a, sm, om, nm, pr, fl, fmt] =>
+    match parseFormula? f, parseOptNat? mi, parseOptRat? mt, parseOptInt? res, parseBool? neu, parseOptRat? ct,
+          parseRat? a, parseBool? sm, parseBool? om, parseRat? nm, parseOptInt? pr, parseOptRat? fl with
+    | some f, some mi, some mt, some res, some neu, some ct, some a, some sm, some om, some nm, some pr, some fl =>
+      let o : Opts := { maxIsotopes := mi, minAbundanceThreshold := mt, resolution := res, useNeutronCount := neu,
+                        convMinAbundanceThreshold := ct, distributionAbundance := a, isAbundanceSum := sm,
+                        outputMassesForNeutronOffset := om, neutronMass := nm, precision := pr, floor := fl }
+      match isotopicDistribution f o with
+      | .error e => showErr e
+      | .ok d =>
+        match rawDistribution f o with
+        | .error e => showErr e
+        | .ok (total, _, _, _) =>
+          let mx := (maxAb total).getD 1
+          let thr := mt.getD 0
+          let sn := sumAb ((total.filter (fun p => decide (thr ≤ p.2 / mx))).map (fun p => (p.1, p.2 / mx)))
+          let dg := diagAll o (cleanFormula f) [((0 : Rat), 1)] (1, 1)
+          "OK\t" ++ showRatApprox mx ++ "\t" ++ showRatApprox sn ++ "\t" ++ showRatApprox dg.1 ++ "\t" ++
+            showRatApprox dg.2 ++ "\t" ++ showDist (isExact fmt) d
+    | _, _, _, _, _, _, _, _, _, _, _, _ => "bad-op"
+  | ["elem", k, c, neu, fl, fmt] =>
+    match c.toNat?, parseBool? neu, parseOptRat? fl with
+    | some c, some neu, some fl =>
+      match lookupEntry (k.toList.map Char.toNat) with
+      | none => "ERR:KeyError"
+      | some e => showDist (isExact fmt) (elemental fl (if neu then offsetIsotopes e else massIsotopes e) c)
+    | _, _, _ => "bad-op"
+  | ["conv", d1, d2, mi, thr, res, fmt] =>
+    match parseDist? d1, parseDist? d2, parseOptNat? mi, parseOptRat? thr, parseOptInt? res with
+    | some d1, some d2, some mi, some thr, some res =>
+      showDist (isExact fmt) (convolve (roundOpt res) (some (thr.getD 0)) mi d1 d2)
+    | _, _, _, _, _ => "bad-op"
+  | ["merge", ds, pr, fmt] =>
+    match (if ds.isEmpty then some [] else (ds.splitOn "|").mapM parseDist?), parseOptInt? pr with
+    | some ds, some pr => showDist (isExact fmt) (mergeDistributions ds pr)
+    | _, _ => "bad-op"
+  | ["round", q, nd] =>
+    match parseRat? q, parseInt? nd with
+    | some q, some nd => showRatExact (roundTo nd q)
+    | _, _ => "bad-op"
+  | _ => "bad-op"
+
+def main : IO Unit := runDriver step
